@@ -5,6 +5,18 @@ ROOT = os.path.dirname(os.path.dirname(os.path.abspath(__file__)))
 
 # id -> (technique, level text, level note, design section)
 CHECKS = {
+ "C01": ("proptest scenes (clip-space and Camera doors, all target kinds) vs an f64 per-pixel reference image: exact clipped polygons with inner/outer plane slack, perspective-correct barycentrics, nearest candidate",
+         "Generated-input search: 32k (1.3M) scenes rendered through render()/Batch/Camera into sentinel-filled Framebuf/colour-only targets; every pixel not within 0.02 px of an edge/plane crossing/possible fan edge or a 0.1 % depth tie is asserted (attribute within 0.5 % of range, 1/w within 0.2 %, outside pixels bit-identical).",
+         "Trusted: f64 reference in harness/src/rs.rs; scalar attributes smuggled through the colour word; apex nudge D-d; colour varyings not asserted (D-e).",
+         "DESIGN.md §4 C01"),
+ "C02": ("proptest view-space triangle soups through the library's own projection/viewport matrices x all Context flags, catch_unwind + sentinel comparison outside the viewport + NaN scan of the depth buffer",
+         "Generated-input search over 120k (5M) scenes in the property's numeric domain with adversarial coordinate classes (exactly on near/far/side planes, behind the eye, coincident, sub-pixel, huge); any panic, any write outside the viewport rectangle or target window, any NaN depth is a violation.",
+         "Trusted: sentinel buffers and catch_unwind; the domain bounds are the property's own.",
+         "DESIGN.md §4 C02"),
+ "C03": ("exhaustive 3^9x4^3 coordinate grid + proptest clip-space triangles and batches, f64 oracle in the input triangle's barycentric chart (containment, attribute = linear field, winding, point membership, batch independence)",
+         "Generated-input search: 1.26M-triangle exhaustive grid plus 220k (11M) generated triangles/batches; each output vertex, output triangle and ~40 membership points per input are decided against the f64 chart oracle; all-inside returned bit-for-bit, all-outside-one-plane empty, clip(batch) == concatenation bit-for-bit.",
+         "Trusted: f64 chart geometry in c03.rs; chart clauses skipped for inputs degenerate in R^4 (counted).",
+         "DESIGN.md §4 C03"),
  "C04": ("exhaustive half/quarter-pixel lattice enumeration against an exact integer edge-function oracle + proptest class-mixture triangles and meshes against f64 signed edge distances",
          "Generated-input search: every ordered vertex triple of the half-pixel lattice on [0,4]^2 (thorough: [0,6]^2 and the quarter-pixel lattice on [0,3]^2) is decided exactly; 150k (6M) generated triangles and 20k (1M) shared-edge meshes are decided against the f64 oracle with the property's 0.001 px band. Establishes the property on everything generated, never absence of violations elsewhere.",
          "Trusted: the f64/integer reference geometry in harness/src/common/geo.rs and c04.rs; domain decisions D-a (band widened beyond 128 px) and D-b (non-negative coordinates).",
@@ -13,6 +25,30 @@ CHECKS = {
          "Generated-input search over 120k (5M) triangles with per-vertex reciprocal depths and seven attribute types; every fragment's position, depth and attribute is compared with the f64 plane oracle, NaN/inf forbidden for area > 1e-6 px^2.",
          "Trusted: the f64 oracle; domain decisions D-c (tolerance scaling for slivers), D-e (colour varyings affine by design), rounding floor for constant fields.",
          "DESIGN.md §4 C05"),
+ "C06": ("metamorphic/model-based: one scene, 10-14 generated histories (permutation x partition into calls x depth_sort x target x vertex-array sharing) vs the per-pixel arg-max over solo renders, bit-for-bit; depth-disjoint layers: z-buffer vs painter",
+         "Generated-input search over 6k (200k) scenes x ~12 histories and 10k (300k) layered scenes. The reference model uses the rasteriser but none of the ordering/depth-test logic; exact ties between different triangles are excluded as the property says.",
+         "Trusted: solo renders as fragment source (rasteriser correctness is C04/C05's job); ids decoded by rounding in the harness shader.",
+         "DESIGN.md §4 C06"),
+ "C07": ("model-based: per-triangle fragment streams recorded from solo renders are replayed by an interpreter of the configuration (cull mode, depth predicate, write masks, discard, 1..3 calls) and compared bit-for-bit with the real buffers and exactly with ctx.stats; closed solids anchor front/back",
+         "Generated-input search over 60k (2M) scene x configuration x call-split cases and 1.5k (60k) rotated solids. Front/back is decided in f64 from view-space geometry, never from the code under test.",
+         "Trusted: the configuration interpreter in c07.rs; recorded fragment streams; scenes with numerically ambiguous winding excluded when culling is on (counted).",
+         "DESIGN.md §4 C07"),
+ "C09": ("proptest products of transform constructors vs f64 matrix arithmetic: compose/then, apply/apply_pt, inverse (>= 30 % needing row exchanges), determinant, rotations, 3x3 API",
+         "Generated-input search over 260k (20M) products with condition number <= 1e3 and |det| in [1e-3,1e3]; all identities compared with an f64 reference under componentwise error bounds with >= 9x measured margin.",
+         "Trusted: f64 reference (Leibniz determinant, Jacobi condition number); D-f domain; apply uses the documented homogeneous-1 form.",
+         "DESIGN.md §4 C09"),
+ "C11": ("model-based stateful testing: exhaustive over all roots <= 4x4 x all sub-rectangles x two nesting levels x a battery of scripts, proptest operation histories (vec(op,0..40) + interpreter), exhaustive direct Slice2/MutSlice2 construction; model = Vec<Vec<u32>> + windows",
+         "Generated-input search: 360k (4.6M) exhaustive view/script cases, 30k (1M) histories, 49k (417k) direct constructions; after every write root.data() is compared with the model storage exactly; every out-of-bounds access must panic or return None.",
+         "Trusted: the array model in c11.rs; D-h (a panic when constructing a zero-area view is a clean rejection).",
+         "DESIGN.md §4 C11"),
+ "C12": ("proptest coordinate class mixture + exhaustive special-value batteries and integer+-ulp sweeps over self-describing textures (owned, sliced, nested, strided with poison surroundings) vs an exact floor-mod / clamp oracle",
+         "Generated-input search over 13M (1.5G) sampler cases including NaN, infinities, +-2^31 neighbourhoods, negative integers and subnormals; exact oracle (no tolerance); no panic for repeat/clamp on any f32 pair; poison texels detect out-of-region reads.",
+         "Trusted: exact oracle in c12.rs; SamplerOnce only called in range (documented unchecked); std float backend (others in C20).",
+         "DESIGN.md §4 C12"),
+ "C18": ("proptest + lattices of angles/intervals/vectors vs f64 reference: unit conversions, wrap range and congruence, operators bit-equal to f32 on radians, polar/spherical round trips, sin_cos",
+         "Generated-input search over 2.5M (96M) cases with >= 10x measured margins; wrap results must lie in [lo, hi] and be congruent modulo the interval length (tolerance scales with (|a|+|lo|+|hi|)/width).",
+         "Trusted: f64 reference in c18.rs; poles / r = 0 / unresolvable congruence excluded and counted.",
+         "DESIGN.md §4 C18"),
 }
 
 NOT_YET = {}
